@@ -118,5 +118,53 @@ def sortShared : Op
       some [ll (H.deref st) y, ll (H.deref st') y, ll (F'.deref st') (fun s r j => y s r (ord.getD j 0))]
   | _ => none
 
-def ops : List (String × Op) := [("C12.filter", filter), ("C12.comp", comp), ("C12.sort_shared", sortShared)]
+/-- `["L", <filt>, <orders of its own sort_times calls>]` | `["N", [<tree>…], <order | n>]`;
+    `none` = malformed, `some (.error e)` = a constructor / `sort_times` call raises -/
+partial def parseTree (v : Val) : Option (Except PErr (FTree Float)) :=
+  match v with
+  | .list [.str "L", fv, ordsV] => do
+    let F0 ← parseFilt fv
+    let ords ← ordsV.natss?
+    let rec go (F : Filt Float) : List (List Nat) → Except PErr (Filt Float)
+      | [] => .ok F
+      | o :: os => match F.sortTimes o with
+        | .error e => .error e
+        | .ok G => go G os
+    some ((go F0 ords).map FTree.leaf)
+  | .list [.str "N", .list cs, ordV] => do
+    let ord ← Val.opt? Val.nats? ordV
+    let ts ← cs.mapM parseTree
+    let rec collect : List (Except PErr (FTree Float)) → Except PErr (List (FTree Float))
+      | [] => .ok []
+      | .error e :: _ => .error e
+      | .ok t :: r => (collect r).map (t :: ·)
+    match collect ts with
+    | .error e => some (.error e)
+    | .ok [] => some (.error .indexError)
+    | .ok (t :: r) =>
+      if !(r.all (fun u => u.R == t.R)) then some (.error .valueError)
+      else
+        let T := FTree.sumT (t :: r)
+        match ord with
+        | none => some (.ok (.node (t :: r) none))
+        | some o =>
+          -- `ComposedPopulationFilter.sort_times`: length / uniqueness checks, the identity is ignored
+          if o.length ≠ T then some (.error .valueError)
+          else if hasDup o then some (.error .valueError)
+          else if o == List.range T then some (.ok (.node (t :: r) none))
+          else some (.ok (.node (t :: r) (some o)))
+  | _ => none
+
+/-- `C12.nested <tree> <sim>` → constructor/sort verdict | score, gradient `[s][r][j]`, n_times -/
+def nested : Op
+  | [tv, simV] => do
+    let t? ← parseTree tv
+    let (n, y) ← parseSim simV
+    match t? with
+    | .error e => some [errVal (errName e)]
+    | .ok t => some [llVal (t.ll n y), grid n t.R t.T (t.grad n y), .int t.T]
+  | _ => none
+
+def ops : List (String × Op) := [("C12.filter", filter), ("C12.comp", comp), ("C12.sort_shared", sortShared),
+  ("C12.nested", nested)]
 end ChiDriver.C12
